@@ -90,4 +90,63 @@ theorem civil_in_range (z : Int) :
   · simp only [hm, if_true]; omega
   · simp only [hm, if_false]; omega
 
+/-! ### digits and time of day -/
+
+/-- the number a run of ASCII digits denotes (most significant first) -/
+def digitsVal (bs : Bytes) : Nat := bs.foldl (fun a b => a * 10 + (b.toNat - 48)) 0
+
+theorem digitsVal_snoc (xs : Bytes) (b : UInt8) : digitsVal (xs ++ [b]) = digitsVal xs * 10 + (b.toNat - 48) := by
+  simp [digitsVal, List.foldl_append]
+
+theorem pad_length (w n : Nat) : (pad w n).length = w := by
+  induction w generalizing n with
+  | zero => simp [pad]
+  | succ w ih => simp [pad, ih]
+
+/-- reading the `w` digits `pad w n` writes gives `n` back, whenever `n` fits in `w` digits -/
+theorem digitsVal_pad (w n : Nat) (h : n < 10 ^ w) : digitsVal (pad w n) = n := by
+  induction w generalizing n with
+  | zero => simp at h; subst h; simp [pad, digitsVal]
+  | succ w ih =>
+    have h' : n / 10 < 10 ^ w := by rw [Nat.pow_succ] at h; omega
+    rw [pad, digitsVal_snoc, ih _ h']
+    have : (UInt8.ofNat (48 + n % 10)).toNat = 48 + n % 10 := by
+      rw [UInt8.toNat_ofNat']; omega
+    rw [this]; omega
+
+theorem sod_fields (sod : Nat) (h : sod < 86400) :
+    sod / 3600 < 24 ∧ sod % 3600 / 60 < 60 ∧ sod % 60 < 60 ∧
+      (sod / 3600) * 3600 + (sod % 3600 / 60) * 60 + sod % 60 = sod := by
+  omega
+
+/-- the numbers `fmtTs` prints: (year, month, day), hour, minute, second, nanoseconds of the second -/
+def tsFields (ns : Int) : (Int × Nat × Nat) × Nat × Nat × Nat × Nat :=
+  let secs := ns.fdiv 1000000000
+  let frac := (ns.fmod 1000000000).toNat
+  let days := secs.fdiv 86400
+  let sod := (secs.fmod 86400).toNat
+  (civil days, sod / 3600, sod % 3600 / 60, sod % 60, frac)
+
+/-- the printed numbers determine the instant, for every `ns : Int` (no range restriction) -/
+theorem tsFields_injective (a b : Int) (h : tsFields a = tsFields b) : a = b := by
+  simp only [tsFields, Prod.mk.injEq] at h
+  obtain ⟨hc, hh, hm, hs, hf⟩ := h
+  have hd := civil_injective _ _ hc
+  rw [Int.fdiv_eq_ediv_of_nonneg _ (by omega), Int.fdiv_eq_ediv_of_nonneg _ (by omega),
+      Int.fdiv_eq_ediv_of_nonneg _ (by omega), Int.fdiv_eq_ediv_of_nonneg _ (by omega)] at hd
+  rw [Int.fmod_eq_emod_of_nonneg _ (by omega), Int.fmod_eq_emod_of_nonneg _ (by omega)] at hf
+  rw [Int.fmod_eq_emod_of_nonneg _ (by omega), Int.fmod_eq_emod_of_nonneg _ (by omega),
+      Int.fdiv_eq_ediv_of_nonneg _ (by omega), Int.fdiv_eq_ediv_of_nonneg _ (by omega)] at hh hm hs
+  omega
+
+/-- the text `fmtTs` writes, as a function of the printed numbers alone -/
+def renderFields : (Int × Nat × Nat) × Nat × Nat × Nat × Nat → Bytes
+  | ((y, m, d), hh, mm, ss, frac) =>
+    let year := if y < 0 then 45 :: pad 6 (-y).toNat else pad 4 y.toNat
+    year ++ [45] ++ pad 2 m ++ [45] ++ pad 2 d ++ [84] ++ pad 2 hh ++ [58] ++ pad 2 mm ++ [58] ++
+      pad 2 ss ++ fracDigits frac ++ [90]
+
+theorem fmtTs_eq_render (ns : Int) : fmtTs ns = renderFields (tsFields ns) := by
+  rfl
+
 end PM.Json
